@@ -106,9 +106,13 @@ class Gen:
         if k == "sum":
             return P.pmk("Sum", [self.term(reserve + 1), self.term(reserve)], r)
         # let: variable, optional annotation, definition, body (a body that is a let is the next definition)
+        # whether the let was written in parentheses is symbolic: it must make no difference to
+        # scoping (a parenthesised group in body position still joins the enclosing group; S-C16-04)
+        self.ngroup = getattr(self, "ngroup", 0) + 1
+        grp = z3.Bool("grp%d" % self.ngroup)
         if k == "leta":
-            return P.pmk("Let", [self.svar(), some(self.term(reserve + 2)), self.term(reserve + 1), self.term(reserve)], r)
-        return P.pmk("Let", [self.svar(), none(), self.term(reserve + 1), self.term(reserve)], r)
+            return P.pmk("Let", [self.svar(), some(self.term(reserve + 2)), self.term(reserve + 1), self.term(reserve)], r, grp)
+        return P.pmk("Let", [self.svar(), none(), self.term(reserve + 1), self.term(reserve)], r, grp)
 
 
 # -------------------------------------------------------------------------------------------------
